@@ -98,17 +98,24 @@ structure Item where
   nbDom : Option (List Char)
   ops : List Op
 
+/-- `validate_route_path`: the path of a route is empty or starts with `/`. -/
+def checkRoutePath (path : List Char) (st : St) : St :=
+  if path ≠ [] ∧ path.head? ≠ some '/' then st.fail .routePath else st
+
+/-- `process_route`: intern the request handler (its own scope below the blueprint's) with the
+    prefix already in front of its path (`router_key.path = format!("{}{}", prefix, path)`). -/
+def addHandler (st : St) (h : Nat) (g : MGuard) (full : List Char) (dom : Option (List Char)) (scope : Scope) : St :=
+  { st with comps := st.comps ++ [.handler { id := st.comps.length, h := h, guard := g, path := full, dom := dom,
+                                               scope := scope ++ [st.nextScope] }],
+            nextScope := st.nextScope + 1 }
+
 /-- The `for component in &bp.components` loop of `_process_blueprint`: routes are interned in
     order, the *last* fallback wins, nested blueprints are pushed on the shared queue. -/
 def procOps : List Op → Scope → Option (List Char) → Option (List Char) → St → Option Nat → List Item →
     St × Option Nat × List Item
   | [], _, _, _, st, fb, q => (st, fb, q)
   | .route h g path :: ops, scope, dom, pfx, st, fb, q =>
-    -- `validate_route_path`: empty, or starts with '/'
-    let st := if path ≠ [] ∧ path.head? ≠ some '/' then st.fail .routePath else st
-    let x : Handler := { id := st.comps.length, h := h, guard := g, path := pfx.getD [] ++ path, dom := dom,
-                         scope := scope ++ [st.nextScope] }
-    procOps ops scope dom pfx { st with comps := st.comps ++ [.handler x], nextScope := st.nextScope + 1 } fb q
+    procOps ops scope dom pfx (addHandler (checkRoutePath path st) h g (pfx.getD [] ++ path) dom scope) fb q
   | .fallback f :: ops, scope, dom, pfx, st, _, q => procOps ops scope dom pfx st (some f) q
   | .nest p d nops :: ops, scope, dom, pfx, st, fb, q =>
     procOps ops scope dom pfx st fb (q ++ [{ parent := scope, pfx := pfx, dom := dom, nbPfx := p, nbDom := d, ops := nops }])
@@ -139,6 +146,24 @@ def nestingConstraints (p d : Option (List Char)) : Except Reject (Option (List 
       | .ok n => .ok (p, some n)
       | .error _ => .error .domainInvalid
 
+/-- `format!("{}{}", parent_prefix, current_prefix)`: prefixes are concatenated in nesting order. -/
+def joinPrefix (parent cp : Option (List Char)) : Option (List Char) :=
+  match parent with
+  | some pre => some (pre ++ cp.getD [])
+  | none => cp
+
+/-- The domain guard of a nested blueprint replaces the enclosing one. -/
+def innerDomain (parent cd : Option (List Char)) : Option (List Char) :=
+  match cd with
+  | some g => some g
+  | none => parent
+
+/-- `aux.domain_guard2locations.entry(guard)`: first-seen order of the domain guards. -/
+def St.noteDomain (st : St) (cd : Option (List Char)) : St :=
+  match cd with
+  | some g => if st.doms.contains g then st else { st with doms := st.doms ++ [g] }
+  | none => st
+
 /-- The `while let Some(item) = processing_queue.pop()` loop of `process_blueprint` (LIFO). -/
 def procQueue : Nat → List Item → St → St
   | 0, _, st => st
@@ -146,23 +171,13 @@ def procQueue : Nat → List Item → St → St
     match q.getLast? with
     | none => st
     | some it =>
-      let q := q.dropLast
       let nested : Scope := it.parent ++ [st.nextScope]
       let st := { st with nextScope := st.nextScope + 1 }
       match nestingConstraints it.nbPfx it.nbDom with
-      | .error e => procQueue fuel q (st.fail e)
+      | .error e => procQueue fuel q.dropLast (st.fail e)
       | .ok (cp, cd) =>
-        let st := match cd with
-          | some g => if st.doms.contains g then st else { st with doms := st.doms ++ [g] }
-          | none => st
-        let pfx := match it.pfx with
-          | some pre => some (pre ++ cp.getD [])
-          | none => cp
-        let dom := match cd with
-          | some g => some g
-          | none => it.dom
-        let (st, q) := procBp it.ops nested dom pfx false st q
-        procQueue fuel q st
+        let r := procBp it.ops nested (innerDomain it.dom cd) (joinPrefix it.pfx cp) false (st.noteDomain cd) q.dropLast
+        procQueue fuel r.2 r.1
 
 mutual
 /-- Number of nested blueprints (bounds the queue loop). -/
